@@ -212,8 +212,29 @@ theorem clip_spec (count : Nat) (m : PositionMatch) (p : α) (r : Option Nat)
       · exact ⟨hvi, h.2.1, fun j _ hj => h.2.2 j (hv0 j) hj⟩
       · exact ⟨hvi, h.2.1, fun j _ hj => h.2.2 j (hv0 j) hj⟩
 
-theorem count_index_spec' (p : α) (count : Nat) (m : PositionMatch) :
-    IsIndex (countAxis count) m p (getCountIndex p count m) :=
-  clip_spec count m p _ (relIndex_sound _ (countAxis_strictMono 0) m p _ _ (raw_rel p m))
+/-- below 2^64 the repaired kernel is the raw index, clipped -/
+theorem getCountIndex_of_lt (p : α) (count : Nat) (m : PositionMatch) (hp : p < ofNat indexLimit) :
+    getCountIndex p count m = clipIndex count m (rawCountIndex p m) := by
+  unfold getCountIndex
+  by_cases h1 : (p < zero && !m.isGreater) = true
+  · rw [if_pos h1]
+    have : rawCountIndex p m = none := by unfold rawCountIndex; rw [if_pos h1]
+    rw [this]; rfl
+  · rw [if_neg h1]
+    have : (!(decide (p < ofNat indexLimit))) = false := by simp [hp]
+    rw [this]; rfl
+
+theorem count_index_spec' (p : α) (count : Nat) (m : PositionMatch) (hp : p < ofNat indexLimit) :
+    IsIndex (countAxis count) m p (getCountIndex p count m) := by
+  rw [getCountIndex_of_lt p count m hp]
+  exact clip_spec count m p _ (relIndex_sound _ (countAxis_strictMono 0) m p _ _ (raw_rel p m))
+
+/-- at and beyond 2^64 (and for a position that is not a number): the last index for Less / LessOrEqual on a bounded dimension, else none -/
+theorem count_index_beyond (p : α) (count : Nat) (m : PositionMatch) (hp : ¬ p < ofNat indexLimit) (h0 : ¬ p < zero) :
+    getCountIndex p count m = if beq p p && decide (0 < count) && m.isLess then some (count - 1) else none := by
+  unfold getCountIndex
+  have h1 : (p < zero && !m.isGreater) = false := by simp [h0]
+  have h2 : (!(decide (p < ofNat indexLimit))) = true := by simp [hp]
+  simp only [h1, h2]; rfl
 
 end Nix.C07
